@@ -156,15 +156,27 @@ def gen_cases(ctx):
             earlier = ("longer",)
         elif idx % 5 == 4:
             earlier = rnd.choice([("same",), ("longer", "same"), ("longer", "longer")])
-        cases.append({"idx": idx, "special": special, "peryear": peryear, "datefmt": datefmt, "earlier": earlier, "sy": sy, "start": start, "end": end, "ann": ann, "eff": eff, "k": k, "csv": csv, "rot": rot,
+        rotmode = "contiguous" if special else ("contiguous", "interleaved", "first", "last", "interleaved")[idx % 5]
+        cropcsv = (not special) and idx % 3 == 0
+        pfcols = None
+        if idx % 3 == 1 or special:
+            pfcols, _sp = _cols(rnd, G_VARS, ["AKTUELL"], rnd.randrange(1, 6))     # optional pre-harvest output (pfout_conf.yml)
+        mgmt = idx % 4 == 2
+        if (not special) and idx % 11 == 10 and idx not in (1, 2):
+            k = 0                                                                 # no time series: no daily file, no dailyout_conf.yml
+            earlier = ()
+        cases.append({"idx": idx, "rotmode": rotmode, "cropcsv": cropcsv, "pfout": pfcols, "mgmt": mgmt, "special": special, "peryear": peryear, "datefmt": datefmt, "earlier": earlier, "sy": sy, "start": start, "end": end, "ann": ann, "eff": eff, "k": k, "csv": csv, "rot": rot,
                       "daily": daily, "yearly": yearly, "crop": crop, "spec": (dspec, yspec, cspec), "unsupported": unsupported})
     return cases
 
 
 def _describe(cs):
-    return ("case %d%s%s start=%s EndDate=%s annual=%s OutputIntervall=%d ResultFileFormat=%d rotation harvests=%s columns=%d/%d/%d"
+    return ("case %d%s%s start=%s EndDate=%s annual=%s OutputIntervall=%d ResultFileFormat=%d rotation harvests=%s columns=%d/%d/%d%s"
             % (cs["idx"], ((" Dateformat=%s" % cs["datefmt"]) if cs.get("datefmt", "DateDElong") != "DateDElong" else "") + (" WeatherFileFormat=0" if cs.get("peryear") else ""), (" [after %s run(s) into the same result folder: %s]" % (len(cs["earlier"]), "+".join(cs["earlier"]))) if cs.get("earlier") else "", cs["start"], cs["end"], cs["ann"], cs["k"], 1 if cs["csv"] else 0,
-               [str(h) for _, _, h in cs["rot"]], len(cs["daily"]), len(cs["yearly"]), len(cs["crop"])))
+               [str(h) for _, _, h in cs["rot"]], len(cs["daily"]), len(cs["yearly"]), len(cs["crop"]),
+               " rotation file: %s, plot's lines %s" % ("csv" if cs.get("cropcsv") else "txt", cs.get("rotmode", "contiguous"))
+               + (" pfout_conf.yml=%d columns" % len(cs["pfout"]) if cs.get("pfout") else "") + (" ManagementEvents=1" if cs.get("mgmt") else "")
+               + (" no dailyout_conf.yml" if cs["k"] == 0 else "")))
 
 
 def _parse(path, cs, cols):
@@ -234,6 +246,7 @@ def _run(ctx):
         cfg = dict(wcfg, WeatherFolder=wfolder, StartYear=c["sy"], EndDate=wxlib.fdate(c["end"], dfm), Dateformat=dfm, DivideCentury=50,
                    AnnualOutputDate=wxlib.fannual(c["ann"], dfm), OutputIntervall=c["k"],
                    ResultFileFormat=1 if c["csv"] else 0, ETpot=rnd.choice([1, 2, 3, 4]))
+        opts = dict(rot_mode=c.get("rotmode", "contiguous"), crop_csv=c.get("cropcsv", False), pfout=c.get("pfout"), management=c.get("mgmt", False))
         # a used result folder: one or two earlier runs into the SAME folder (same file names), longer / more records or
         # the same; the files must afterwards hold the records of the last run only
         for j, kind in enumerate(c.get("earlier", ())):
@@ -242,9 +255,9 @@ def _run(ctx):
             if kind == "longer":
                 cfg0["EndDate"] = wxlib.fdate(min(c["end"] + datetime.timedelta(days=400 + 150 * j), D(hi + 1, 6, 30)), dfm)
                 cfg0["OutputIntervall"] = 1
-            wxlib.write_project(root, pe, cfg0, c["rot"], c["daily"], c["yearly"], c["crop"])
+            wxlib.write_project(root, pe, cfg0, c["rot"], c["daily"], c["yearly"], c["crop"], **opts)
             lines.append(wxlib.batch_line(pe, "WX", "R/" + p)); owner.append(None)
-        wxlib.write_project(root, p, cfg, c["rot"], c["daily"], c["yearly"], c["crop"])
+        c["pdir"] = wxlib.write_project(root, p, cfg, c["rot"], c["daily"], c["yearly"], c["crop"], no_daily_conf=(c["k"] == 0), **opts)
         lines.append(wxlib.batch_line(p, "WX", "R/" + p)); owner.append(c["idx"])
     rc, allruns, err = wxlib.run_lines(ctx, root, lines, False, "c05")
     runs = [r for r, o in zip(allruns, owner) if o is not None] if len(allruns) == len(lines) else []
@@ -254,9 +267,17 @@ def _run(ctx):
         rdir = os.path.join(root, "R", "r%03d" % c["idx"])
         ext = "csv" if c["csv"] else "RES"
         o = {}
-        for tag, cols in (("V", c["daily"]), ("Y", c["yearly"]), ("C", c["crop"])):
-            files = [f for f in (os.listdir(rdir) if os.path.isdir(rdir) else []) if f.startswith(tag) and f.endswith("." + ext)]
+        present = sorted(os.listdir(rdir)) if os.path.isdir(rdir) else []
+        for tag, cols in (("V", c["daily"]), ("Y", c["yearly"]), ("C", c["crop"]), ("P", c.get("pfout") or [])):
+            files = [f for f in present if f.startswith(tag) and f.endswith("." + ext)]
             o[tag] = _parse(os.path.join(rdir, files[0]), c, cols) if len(files) == 1 else None
+            if len(files) == 1:
+                o.setdefault("hdr", {})[tag] = open(os.path.join(rdir, files[0]), newline="").read().split("\r\n")[0]
+        if c["k"] == 0 and o["V"] is None:
+            o["V"] = []                       # OutputIntervall 0: no daily file is the expected outcome
+        mfiles = [f for f in present if f.startswith("M")]
+        o["M"] = open(os.path.join(rdir, mfiles[0]), newline="").read() if len(mfiles) == 1 else None
+        o["files"] = present
         obs.append(o)
     _cache["runs"] = (rc, cases, runs, obs, err)
     return _cache["runs"]
@@ -422,6 +443,29 @@ def _annual_expected(cs):
     return out
 
 
+def _read_rotation(cs):
+    """[(crop, sowing date | None, harvest date)] of the plot's field, read back from the project's rotation file"""
+    dfm = cs.get("datefmt", "DateDElong")
+    csvf = cs.get("cropcsv")
+    path = os.path.join(cs["pdir"], "crop_%s.%s" % (os.path.basename(cs["pdir"]), "csv" if csvf else "txt"))
+    def pd(t):
+        t = t.strip()
+        if not t or not t.isdigit():
+            return None
+        en, short = dfm.startswith("DateEN"), dfm.endswith("short")
+        a, b, y = int(t[0:2]), int(t[2:4]), int(t[4:])
+        if short:
+            y = 2000 + y if y < 50 else 1900 + y
+        dd, mm = (b, a) if en else (a, b)
+        return D(y, mm, dd)
+    out = []
+    for ln in open(path).read().split("\n")[1:]:
+        t = ln.split(",") if csvf else ln.split()
+        if len(t) >= 4 and t[0].strip() == wxlib.FIELD:
+            out.append((t[1].strip(), pd(t[2]), pd(t[3])))
+    return out
+
+
 def _annual_runaway(cs, jtag_by_key):
     """day loop calendar with JTAG taken from the per-year file found under the year's file NAME (path.go yearToExtension)"""
     def key(year):
@@ -461,7 +505,7 @@ def oracle(ctx, search):
         fails.append(Fail(key="harness-crash", what="the simulator aborted (log.Fatal/panic) on a generated configuration",
                           stderr=err[-800:], completed_runs=len(runs)))
         return fails
-    nrec = 0
+    nrec = npre = nmgmt = nhdr = 0
     for cs, run, o in zip(cases, runs, obs):
         desc = _describe(cs)
         if not run["success"]:
@@ -469,7 +513,7 @@ def oracle(ctx, search):
         if any(o[t] is None for t in "VYC"):
             fails.append(Fail(key="result-file-missing:%d" % cs["idx"], what="a V/Y/C result file is missing", case=desc)); continue
         # ---- daily
-        want = [date_of(z) for z in range(daynum(cs["start"]), daynum(cs["eff"]) + 1) if z % cs["k"] == 0]
+        want = [date_of(z) for z in range(daynum(cs["start"]), daynum(cs["eff"]) + 1) if cs["k"] > 0 and z % cs["k"] == 0]
         dfm = cs.get("datefmt", "DateDElong")
         got = [wxlib.parse_out_date(f[0], dfm) if f else None for f, ln in o["V"]]
         if not cs["unsupported"] or cs["csv"]:
@@ -504,7 +548,12 @@ def oracle(ctx, search):
                 fails.append(Fail(key="annual-records:%d" % cs["idx"],
                                   what="yearly file: records %s, expected %s" % ([str(x) for x in goty][:8], [str(x) for x in wanty][:8]), case=desc))
         # ---- crops
-        wantc = [(crp, h) for crp, s, h in cs["rot"][1:] if h <= cs["eff"]]
+        # one crop record per harvested rotation entry of the FILE: the rotation file is read back here, independently of how it
+        # was generated (all lines whose first token is the plot's field, in file order; the first one is the previous crop)
+        filerot = _read_rotation(cs)
+        if [(a, c_) for a, b, c_ in filerot] != [(a, c_) for a, b, c_ in cs["rot"]]:
+            fails.append(Fail(key="rotation-file-readback:%d" % cs["idx"], what="generator and read-back of the rotation file disagree", case=desc))
+        wantc = [(crp, h) for crp, s, h in filerot[1:] if h <= cs["eff"]]
         gotc = []
         for f, ln in o["C"]:
             try:
@@ -522,11 +571,47 @@ def oracle(ctx, search):
         if gotc != wantc:
             fails.append(Fail(key="crop-records:%d" % cs["idx"], what="crop file: records %s, expected %s"
                               % ([(a, str(b)) for a, b in gotc][:8], [(a, str(b)) for a, b in wantc][:8]), case=desc))
+        # ---- optional pre-harvest file (pfout_conf.yml present and a time series written): one record on the day before every harvest
+        exp_files = {"Y", "C"} | ({"V"} if cs["k"] > 0 else set()) | ({"P"} if (cs.get("pfout") and cs["k"] > 0) else set()) | ({"M"} if cs.get("mgmt") else set())
+        got_files = set(f[0] for f in o["files"])
+        if got_files != exp_files or len(o["files"]) != len(exp_files):
+            fails.append(Fail(key="result-files:%d" % cs["idx"], what="result folder holds %s, the configuration asks for one file each of %s"
+                              % (o["files"], sorted(exp_files)), case=desc))
+        if "P" in exp_files and o["P"] is not None:
+            wantp = [h - ONE for crp, s_, h in filerot[1:] if cs["start"] <= h - ONE <= cs["eff"]]
+            gotp = [wxlib.parse_out_date(f[0], dfm) if f else None for f, ln in o["P"]]
+            npre += len(wantp)
+            if gotp != wantp:
+                fails.append(Fail(key="pre-harvest-records:%d" % cs["idx"], what="pre-harvest file: records %s, expected the day before each harvest %s"
+                                  % ([str(x) for x in gotp][:8], [str(x) for x in wantp][:8]), case=desc))
+        # ---- management events file: every line is one event of one writer: date, event name, attributes
+        if cs.get("mgmt") and o["M"] is not None:
+            for ln in o["M"].split("\n"):
+                if ln == "":
+                    continue
+                nmgmt += 1
+                if os.environ.get("C05_DEBUG") and nmgmt < 6:
+                    print("M:", repr(ln))
+                t = ln.split(",") if "," in ln else ln.split()
+                if wxlib.parse_out_date(t[0], dfm) is None or len(t) < 2 or t[1].strip() not in ("tillage", "irrigation", "sowing", "harvest", "fertilization", "fertilizer", "Sowing", "Harvest"):
+                    fails.append(Fail(key="management-line:%d" % cs["idx"], what="management file line is not 'date, event, attributes': %r" % ln[:120], case=desc))
+                    break
         # ---- fields
-        for tag, cols in (("V", cs["daily"]), ("Y", cs["yearly"]), ("C", cs["crop"])):
+        for tag, cols in (("V", cs["daily"]), ("Y", cs["yearly"]), ("C", cs["crop"]), ("P", cs.get("pfout") or [])):
+            if o.get(tag) is None:
+                continue
             if cs["unsupported"] and tag == "V":
                 continue
             width = sum(c["Width"] + 1 for c in cols)
+            # one writer per file: the head line carries this file's column names, every record this file's column count
+            hdr = (o.get("hdr") or {}).get(tag)
+            names = [c["VariableName"].replace(".", "_") for c in cols]
+            if hdr is not None and not cs["special"]:
+                nhdr += 1
+                toks = [t.strip() for t in hdr.split(",")] if cs["csv"] else hdr.split()
+                if toks != names:
+                    fails.append(Fail(key="head-line:%s:%d" % (tag, cs["idx"]), what="%s file: head line %r, the configuration of this file names the columns %s"
+                                      % (tag, hdr[:200], names), case=desc))
             for f, ln in o[tag]:
                 nrec += 1
                 if len(f) != len(cols) or (not cs["csv"] and len(ln) != width):
@@ -535,6 +620,12 @@ def oracle(ctx, search):
                                            % (tag, len(f), len(ln), len(cols), width, ln[:200]), case=desc))
                     break
     ctx.extra["oracle_records_checked"] = nrec
+    ctx.extra["oracle_pre_harvest_records_expected"] = npre
+    ctx.extra["oracle_management_lines_checked"] = nmgmt
+    ctx.extra["oracle_head_lines_checked"] = nhdr
+    ctx.extra["run_set"] = {"rotation_file_layouts": sorted(set(c["rotmode"] + ("/csv" if c["cropcsv"] else "/txt") for c in cases)),
+                            "with_pfout_conf": sum(1 for c in cases if c.get("pfout")), "without_daily_conf": sum(1 for c in cases if c["k"] == 0),
+                            "with_management_file": sum(1 for c in cases if c.get("mgmt"))}
     fm, ff, fst = c05fmtlib.check(ctx)
     for key, what in ff:
         fails.append(Fail(key=key, what=what))
